@@ -38,7 +38,7 @@ def config(tier):
     }
 
 
-NAMES = ["a", "b", "c", "g", "h", "o", "i.d", "i.q", "j.in_0", "j.out", "1n", "g_0"]
+NAMES = ["a", "b", "c", "g", "h", "o", "i.d", "i.q", "j.in_0", "j.out", "1n", "g_0", "g ", " h"]    # names differing by blanks only, too
 TYPES = ["input", "buf", "not", "and", "nand", "or", "nor", "xor", "xnor", "0", "1", "x", "bb_input", "bb_output", "foo"]
 BBS = {
     "ff": {"type": "ff", "ins": ["d"], "outs": ["q"]},
@@ -83,6 +83,13 @@ def children():
     g = nx.DiGraph()
     g.add_node("one", type="buf", output=True)
     out["one"] = proj_graph(g, "one")
+    g = nx.DiGraph()           # ports whose own names start with an instance name and an underscore
+    for n in ("a", "u0_a", "u1_a", "i_a"):
+        g.add_node(n, type="input", output=False)
+    g.add_node("y", type="xor", output=True)
+    g.add_node("u0_y", type="and", output=True)
+    g.add_edges_from([("a", "y"), ("u0_a", "y"), ("u1_a", "u0_y"), ("i_a", "u0_y"), ("a", "u0_y")])
+    out["pfx"] = proj_graph(g, "pfx")
     return out
 
 
